@@ -746,12 +746,17 @@ func runCases(ctx *hx.Ctx, cases []*Case) {
 			continue
 		}
 		if rr.failure != "" {
+			if reported[classOf(rr.failure)] {
+				continue
+			}
+			reported[classOf(rr.failure)] = true
 			sc := shrink(c, func(x *Case) bool { r := runReal(x); return r.failure != "" })
 			r := runReal(sc)
 			ctx.Violation(classOf(r.failure), r.failure, sc, true)
 			continue
 		}
-		if rr.deadFork != "" {
+		if rr.deadFork != "" && !reported["deadfork"] {
+			reported["deadfork"] = true
 			sc := shrink(c, func(x *Case) bool { r := runReal(x); return r.deadFork != "" && r.failure == "" && r.err == "" })
 			r := runReal(sc)
 			ctx.Violation("dead-fork root silently different after prune", r.deadFork, sc, true)
@@ -761,6 +766,8 @@ func runCases(ctx *hx.Ctx, cases []*Case) {
 		}
 	}
 }
+
+var reported = map[string]bool{}
 
 func classOf(s string) string {
 	if i := strings.IndexAny(s, ":"); i > 0 {
